@@ -326,6 +326,9 @@ func Walk(v Visitor, node Node) {
 			Walk(v, n.Type)
 		}
 		walkList(v, n.Values)
+		if n.Tag != nil {
+			Walk(v, n.Tag)
+		}
 		if n.Comment != nil {
 			Walk(v, n.Comment)
 		}
